@@ -4,6 +4,7 @@ import ErgoVerif.Lemmas.SupOrder
 import ErgoVerif.Lemmas.SupLoopSOFO
 import ErgoVerif.Lemmas.SupLoopOFO
 import ErgoVerif.Lemmas.SupTrackOFO
+import ErgoVerif.Lemmas.SupTrackOFO2
 /-!
 # C08 — supervisor restart semantics by type and strategy
 
@@ -26,7 +27,8 @@ Contents
   `C08_sofo_all_stopped`, `C08_sofo_no_hang`.
 * T7 `C08_every_exit_noticed_once_{ofo,arfo,sofo}` — the glue, all three types, ALL histories.
 * one-for-one, closed system, ALL histories: `C08_ofo_no_panic` (no panic, handleAction terminates).
-* one-for-one tracking of the children table: inductive STEPS only (`C08_ofo_tracking_*_step`), closure not done.
+* one-for-one tracking of the children table: `C08_ofo_tracking_*_step` and the closure `C08_all_stopped_ofo_partial`
+  (all histories outside the regions D26/D27).
 * refuted full statements (listed findings) with proved counterexamples:
   `C08_no_panic_arfo_full` (D18), `C08_prescribed_set_full` (D25), `C08_all_stopped_ofo_full` (D26, D27),
   and the partial results that do hold.
@@ -302,9 +304,8 @@ theorem C08_ofo_no_panic (sp : SupSpec) (hv : ValidSpec sp) (c : Loop OFO) (h : 
 
 `OFO.TInv m kids`: spec names are distinct and non-empty; in normal operation the non-zero pids stored in the specs
 are exactly the pids of `Supervisor.children` (with the right spec name); while shutting down the wait set is exactly
-that set and a final reason is recorded.  The three theorems below are the inductive steps for the exit dispatch and
-for a spawn.  NOT done (time): the steps for the four management calls and the closure into a theorem over all
-histories — which can only hold for histories avoiding D26/D27 (see the counterexamples further down). -/
+that set and a final reason is recorded.  The theorems below are the inductive steps for the exit dispatch and for a
+spawn; `C08_all_stopped_ofo_partial` further down is the closure over all histories that avoid D26/D27. -/
 
 /-- exit of a known child in normal operation: the invariant is re-established for the table without that child, and
 the answer is good: a `start` is for a spec without a child; `terminateChildren` on entering shutdown makes the
@@ -465,6 +466,40 @@ theorem C08_prescribed_set_counterexample : ¬ C08_prescribed_set_full := by
 /-- "stops all its children": a supervisor that has terminated by its own decision has no running child -/
 def C08_all_stopped_ofo_full : Prop :=
   ∀ sp, ValidSpec sp → ∀ c, OfoReach sp c → ∀ r, c.status = .terminated r → c.alive = []
+
+/-- histories of the closed one-for-one system that stay out of the two listed regions: no EnableChild for a spec that
+still has an entry in the children table (D26), no StartChild/AddChild/EnableChild while shutting down (D27) -/
+def OfoSafeReach (sp : SupSpec) (c : Loop OFO) : Prop := ∃ ls, run ofoStepSafe (ofoBoot sp) ls = some c
+
+theorem ofo_track {sp : SupSpec} (hv : ValidSpec sp) {c : Loop OFO} (h : OfoSafeReach sp c) : OFO.Track c := by
+  obtain ⟨ls, hr⟩ := h
+  exact run_inv (Inv := OFO.Track) (fun s a s' hi hs => OFO.step_track s s' a hi hs) (OFO.boot_track sp hv) hr
+
+/-- the strongest statement that holds for one-for-one: outside D26/D27, for every valid spec and EVERY history
+(children dying at any moment, exits handled in any order, spawn failures, foreign exits, management calls):
+the machine's pids are exactly the children table; a terminated supervisor has no child left, running or unnoticed;
+a supervisor that is shutting down and still alive is waiting for an existing child (it cannot hang); no panic -/
+theorem C08_all_stopped_ofo_partial (sp : SupSpec) (hv : ValidSpec sp) (c : Loop OFO) (h : OfoSafeReach sp c) :
+    (∀ r, c.status = .terminated r → c.alive = [] ∧ c.inflight = []) ∧
+    (c.m.shutdown = false → ∀ p, p ∈ keys c.kids ↔ (p ≠ 0 ∧ ∃ s, s ∈ c.m.spec ∧ s.pid = p)) ∧
+    (c.status = .running → c.m.shutdown = true → ∃ p, p ∈ c.m.wait ∧ (p ∈ keys c.alive ∨ p ∈ keys c.inflight)) ∧
+    c.status ≠ .panicked ∧ c.status ≠ .stuck := by
+  have ht := ofo_track hv h
+  refine ⟨?_, fun hsd => (ht.core.tinv.normal hsd).1, ?_, ht.core.sane.1, ht.core.sane.2⟩
+  · intro r hr
+    have hk := (ht.core.term r hr).1
+    have ha : ∀ p, p ∉ keys c.alive := fun p hp => hk p ((ht.glue.kids_iff p).mpr (Or.inl hp))
+    have hi : ∀ p, p ∉ keys c.inflight := fun p hp => hk p ((ht.glue.kids_iff p).mpr (Or.inr hp))
+    constructor
+    · cases hx : c.alive with
+      | nil => rfl
+      | cons a t => exact absurd (by rw [hx]; simp [keys]) (ha a.1)
+    · cases hx : c.inflight with
+      | nil => rfl
+      | cons a t => exact absurd (by rw [hx]; simp [keys]) (hi a.1)
+  · intro hrun hsd
+    obtain ⟨p, hp⟩ := ht.core.live hrun hsd
+    exact ⟨p, ((ht.core.tinv.shut hsd).1 p).mpr hp, (ht.glue.kids_iff p).mp hp⟩
 
 /-- D26: DisableChild c2, c2 dies, EnableChild c2 before the exit is handled (new child, pid 4); the stale exit
 clears the new pid; the significant c3 dies: only c1 is stopped; the supervisor terminates with pid 4 running -/
